@@ -5,6 +5,8 @@ import (
 	"net/url"
 	"time"
 
+	altkinds "example.com/vs/kinds/alt/kinds"
+	"example.com/vs/kinds/ext"
 	"example.com/vs/kinds/unit"
 )
 
@@ -177,3 +179,49 @@ type Zoo struct {
 	Star    Animal
 	Animals Herd
 }
+
+// Tone has an unexported constant repeating an exported one.
+type Tone int
+
+const (
+	Soft Tone = iota + 1
+	Loud
+	defaultTone = Soft
+)
+
+// Parcel uses an enum of a package that has the same name as this one, and a
+// generic type whose argument lives in a package used for nothing else.
+type Parcel struct {
+	Tone   Tone
+	Weight altkinds.Weight
+	Owner  Handle[ext.Customer]
+}
+
+// Top3 embeds Mid3, which embeds Inner3: two levels of flattening.
+type Top3 struct {
+	Mid3
+	Name string
+}
+
+type Mid3 struct {
+	Inner3
+	UpdatedBy string
+}
+
+type Inner3 struct {
+	CreatedBy string
+}
+
+// SliceItem is a named slice called like the helper generated for []Item.
+type SliceItem []Item
+
+type Item struct {
+	N int
+}
+
+type Bag struct {
+	Items SliceItem
+	Extra MapstringItem
+}
+
+type MapstringItem map[string]Item
